@@ -225,8 +225,8 @@ CHECKS['C16'] = dict(
 
 CHECKS['C13'] = dict(
     level='exploration',
-    rule='generated entry MXCSR words (all 2^16 control/status combinations: rounding x FTZ x DAZ x 6 exception masks x 6 sticky flags, plus corners 0x1F80, 0x9FC0, 0, 0xFFFF, all-unmasked) x 10 VM configurations '
-         '(interpreter/JIT/secure JIT x soft/hard AES x v1/v2, light) x generated inputs; single call: digest == digest under the default state and MXCSR after == MXCSR before on all 16 bits, for two hashes back to back '
+    rule='generated entry MXCSR words (all 2^16 control/status combinations: rounding x FTZ x DAZ x 6 exception masks x 6 sticky flags, plus corners 0x1F80, 0x9FC0, 0, 0xFFFF, all-unmasked) x 15 VM configurations '
+         '(interpreter/JIT/secure JIT x soft/hard AES x v1/v2, light; plus 5 fast-mode classes over a synthetic dataset) x generated inputs; single call: digest == digest under the default state and MXCSR after == MXCSR before on all 16 bits, for two hashes back to back '
          'under different entry states; pipelined API: independent entry state before each of first/next/last, digests == default-state digests. '
          'Non-trivial: entry state != default AND the last program of that hash ends in a non-default rounding mode (measured by reading MXCSR after a _last on the same input) - the combination that defeats "the restore masks a missing reset"',
     assumptions=COMMON_ASSUME + ['MXCSR read with stmxcsr immediately around the call; the harness does no floating-point work while exceptions are unmasked'],
